@@ -16,6 +16,18 @@ PROPS = {
         "level_note": "trusted: spec/Civil.tla (certified against itself by MC_Civil), TLC, the harness' logging; the astronomy is not involved",
         "technique": "TLA+ design model checked with TLC + trace validation of implementation walks against the same spec",
     },
+    "C02": {
+        "title": "solar<->lunar conversion is a bijection that preserves order",
+        "mc": {"quick": [{"module": "MC_DayClock", "cfg": "MC_DayClock.cfg", "workers": 6}]},
+        "rule": "civil day walks (boundary catalogue incl. both reform periods + 30 seeded windows; thorough: all 3,652,061 days) logging the lunar date, both round trips, LunarDay::next(+-1), before/after/== against the previous day; "
+                "lunar-side enumeration of every day 0..31 of every month of sampled (quick) / all (thorough) lunar years; ordered pairs from neighbouring months incl. leap twins. "
+                "Non-trivial: month roll-overs, leap-month days, pairs with a leap month or across years",
+        "exhaustive": {"quick": False, "thorough": True},
+        "assumptions": ["month lengths and leap months are the implementation's own answers (constrained by C03/C04); the spec relates consecutive days and both directions of the conversion"],
+        "level_text": "TLC checks the day clock with free astronomy (MC_DayClock: lunar order = day order, day within month) and validates day walks of the real code against its Tick action (day+1 in the month or day 1 of the successor label), both round trips, next/prev and the ordering predicates; the lunar side enumerates every accepted day of every month; thorough covers every civil date and every lunar date of years 0..9999",
+        "level_note": "trusted: DayClock.tla / LunarCal.tla, TLC, harness logging",
+        "technique": "TLA+ day-clock model checked with TLC + trace validation of day walks and lunar-side enumeration",
+    },
     "C03": {
         "title": "lunar months tile time: 29/30 days, 12/13 per year, no gaps or overlaps",
         "mc": {"quick": [{"module": "MC_MonthClock", "cfg": "MC_MonthClock.cfg", "workers": 4}]},
@@ -27,6 +39,17 @@ PROPS = {
         "level_text": "TLC checks the label arithmetic of the month clock for every placement of leap months and 29/30-day lengths (MC_MonthClock) and validates month-by-month walks of the real code against the same NextMonth action (first' = first + len, label succession by the year's leap month, index, next/prev/next(n)/constructors agreeing); thorough walks all ~123,700 lunations of years 0..9999",
         "level_note": "trusted: LunarCal.tla label rules, TLC, harness logging; which month is leap is bound from LunarYear::get_leap_month (C04 relates it to the astronomy)",
         "technique": "TLA+ month-clock model checked with TLC + trace validation of month walks",
+    },
+    "C07": {
+        "title": "day pillar and weekday advance one step per civil day from fixed anchors",
+        "mc": {"quick": [{"module": "MC_DayClock", "cfg": "MC_DayClock.cfg", "workers": 6}]},
+        "rule": "civil day walks (boundary catalogue + 30 seeded windows; thorough: every civil date) logging the weekday by 3 routes and the day pillar by 4 routes. "
+                "Non-trivial: lunar month starts, civil month starts, October 1582, cycle wrap-arounds (Jiazi days, Sundays)",
+        "exhaustive": {"quick": False, "thorough": True},
+        "assumptions": [],
+        "level_text": "TLC checks on the day-clock model that Tick (+1 mod 7, +1 mod 60 per day) keeps weekday = (day number+1) mod 7 and pillar = (day number+49) mod 60 (with two dated pillars as anchors) and validates walks of the real code against both the anchored invariants and Tick on every adjacent pair, for every route to the pillar; thorough covers all 3,652,061 days",
+        "level_note": "trusted: DayClock.tla anchors (stated in the property), Civil.tla day numbers (C01), TLC, harness logging",
+        "technique": "TLA+ day-clock model checked with TLC + trace validation of day walks",
     },
     "C10": {
         "title": "answers do not depend on call history, thread interleaving or earlier refusals",
